@@ -210,6 +210,8 @@ static void case_q(Rng& r) {
     if (r.coin()) sk->merge(other); else { other.merge(*sk); *sk = other; }
     n = n1 + n2;
   }
+  bool has_long = false;
+  { T li; if (cls >= 2 && r.chance(0.08) && LongItem<T>::make(r, li)) { sk->update(li); has_long = true; uniform_k = false; } }   // > 64 KiB item (the maximum, so it stays in the image)
   if (r.chance(0.3) && !sk->is_empty()) (void)sk->get_rank(Item<T>::gen(r));   // queried before serialisation (sorted flag set)
   describe(fam + " k=" + std::to_string(k) + " hra=" + std::to_string(hra) + " " + desc + " n=" + std::to_string(n));
   count(fam + "_" + desc);
@@ -255,7 +257,8 @@ static void case_q(Rng& r) {
     if (K::reduced_after(s)) count("req_continuation_reduced_compare"); else count(std::string(K::name()) + "_continuation_full_compare");
   };
   (void)uniform_k;
-  roundtrip(o, *sk, r, G().cur_desc);
+  const Result res = roundtrip(o, *sk, r, G().cur_desc);
+  if (has_long && res.ok && res.image.size() > 65536) count(std::string(K::name()) + "_long_string_in_image");
 }
 
 void run_case(uint64_t idx, Rng& r) {
